@@ -607,8 +607,13 @@ static void run_case(char **tok, int ntok)
 					if (!chain_header_string(&c.curfull, c.blkf, sizeof(c.blkf))) c.blkf[0] = 0;
 				}
 				c.since += used;
-				if (c.kind == K_MT)
+				if (c.kind == K_MT) {
 					while (c.since >= c.block_size) { expect_block(&c, c.block_size); c.since -= c.block_size; }
+					// input that ends exactly at a block_size multiple leaves no Block open (coder->thr == NULL): the
+					// next Block takes the chain in force when ITS first byte arrives
+					if (c.since == 0)
+						c.block_open = false;
+				}
 			}
 			const chain_t *eff = (!is_stream_kind(&c) || c.block_open) ? &c.blk : &c.cur;
 			const bool nonflushable = eff->has_lzma1 || eff->has_bcj;
